@@ -7,3 +7,4 @@ import CprocVerif.Props.C17
 import CprocVerif.Props.C04
 import CprocVerif.Props.C19
 import CprocVerif.Props.C20
+import CprocVerif.Props.C14
